@@ -60,6 +60,26 @@ CHECKS = {
         technique='CrossHair (z3) solver-exhausted enumeration of request histories against the real transpiler cache (real locking, parsing, factory creation, instantiate; counting stub for transform_ast)',
         text='Every history of H<=3 (thorough 4) requests (function, options) over a pool with shared code objects / same-named definitions / re-created functions x 4 option sets: each returned function equals a cache-less fresh conversion of exactly that function object under exactly those options (behaviour, defaults/globals/cells identity, generated source), and the source transformation ran at most once per (code, options).',
         note='STUB: transform_ast is a counting stub embedding (name, options) into the output. Thread schedules: E3 model (see DESIGN) - until it is part of the run the thread-safety clause is not claimed.'),
+    'C05': dict(
+        level='exploration', engine='xh-path', design='DESIGN.md §2 C05',
+        technique='CrossHair (z3) enumerates every branch-decision vector (<=K opaque booleans) of an instrumented copy of each enumerated program executed by CPython; the recorded statement trace must be a path of the graph built by the real cfg.build',
+        text='For every enumerated program and every sequence of at most K branch decisions, the sequence of CFG-owning nodes that CPython actually executes (incl. break/continue/return through enclosing finally blocks, raise to enclosing handlers, loop else clauses) starts at graph.entry, follows node.next edges, and ends in an exit or raise node. Concrete side conditions: next/prev mirror, entry has no predecessor, stmt_next/stmt_prev recomputed from node ownership.',
+        note='K=8 quick / 12 thorough decisions per run; executions needing more are outside. Implicit exceptions and exceptional propagation through finally are outside (as the cfg docstring states). CPython is the oracle.'),
+    'C06': dict(
+        level='exploration', engine='xh-path', design='DESIGN.md §2 C06',
+        technique='same path-exhaustive exploration; each Definition is mapped to its CFG node through a definition_factory; last-writer log of the instrumented run vs anno.Static.DEFINITIONS / DEFINED_VARS_IN',
+        text='On every explored path: at every successful read of a local/parameter the statement that actually bound the value is among the definitions attached to that read; at every entry into if/for/while/try every bound local is in DEFINED_VARS_IN. Concrete side condition: the transfer equations hold on a fresh run of the real Analyzer.',
+        note='Intraprocedural: writes by other activations (nonlocal writes in callees) are outside. Composite names outside.'),
+    'C07': dict(
+        level='exploration', engine='xh-path', design='DESIGN.md §2 C07',
+        technique='same path-exhaustive exploration; use-before-overwrite computed backwards over the recorded trace vs. live_in/live_out of a fresh liveness.Analyzer run and LIVE_VARS_IN/OUT annotations',
+        text='On every explored path and at every statement boundary: a variable whose current value is read later before being overwritten (directly or by a local function closing over it, incl. nonlocal) is in live_out of the finished statement, live_in of the next, and in LIVE_VARS_OUT/IN of every compound statement left/entered. Concrete side condition: liveness equations hold.',
+        note='Lambda closures used after their defining statement are a documented limit and not generated.'),
+    'C08': dict(
+        level='exploration', engine='xh-path', design='DESIGN.md §2 C08',
+        technique='same path-exhaustive exploration for the per-statement read/modified/deleted inclusion; concrete comparison of per-function name classes with CPython symtable (stated as concrete)',
+        text='Second conjunct (solver-explored): for every executed statement instance on every explored path, names actually read are in Scope.read and names actually rebound/deleted are in modified/deleted of that statement. First conjunct: bound locals, globals, nonlocals, parameters per function equal CPython symtable classification (concrete set comparison per program).',
+        note='The first conjunct is a concrete comparison (no solver quantifier); claimed as a side condition only. Comprehension targets / except names / lambda bodies outside.'),
 }
 
 NOT_APPLICABLE = {
